@@ -2,6 +2,7 @@ import CDVProofs.TablesRT
 import CDVProofs.HeaderKind
 import CDVProofs.DecodeOps
 import CDVProofs.Props.C09
+import CDVProofs.EncodeSpec
 /-! # The operand tables survive `from_code` → `to_code`: the four tables in lock step -/
 namespace CDV
 open CDV.Props.C09 (keyEquiv_str keyEquiv_const)
@@ -97,12 +98,14 @@ theorem toArg_fromArg (v : Ver) (T : OpTable) (fv : List PStr) (tp : Option Func
     (hdoc : ∀ f, tp = some f → f.doc = firstStr K)
     (st st' : DecSt) (est : EncSt) (i : RawI) (arg arg' : Arg) (hs : SimSt names varnames cellvars K st est)
     (h : toArg v T fv st i = .ok (st', arg)) (hj : SameOrJump arg arg') :
-    ∃ est' x, fromArg tp fv est arg' = .ok (est', x) ∧ SimSt names varnames cellvars K st' est' := by
-  have hjump : ∀ t r, arg = .jump t r → st' = st → ∃ est' x, fromArg tp fv est arg' = .ok (est', x) ∧ SimSt names varnames cellvars K st' est' := by
+    ∃ est' x, fromArg tp fv est arg' = .ok (est', x) ∧ SimSt names varnames cellvars K st' est' ∧
+      ((∀ t r, arg ≠ .jump t r) → cellvars.Nodup → fv.Nodup → x = i.arg) := by
+  have hjump : ∀ t r, arg = .jump t r → st' = st → ∃ est' x, fromArg tp fv est arg' = .ok (est', x) ∧ SimSt names varnames cellvars K st' est' ∧
+      ((∀ t r, arg ≠ .jump t r) → cellvars.Nodup → fv.Nodup → x = i.arg) := by
     intro t r ha hst
     rcases hj with rfl | ⟨_, t', r', rfl⟩
-    · subst ha; subst hst; exact ⟨est, 1, rfl, hs⟩
-    · subst hst; exact ⟨est, 1, rfl, hs⟩
+    · subst ha; subst hst; exact ⟨est, 1, rfl, hs, fun hn => absurd rfl (hn _ _)⟩
+    · subst hst; exact ⟨est, 1, rfl, hs, fun hn => absurd ha (hn _ _)⟩
   have hnoj : (∀ t r, arg ≠ .jump t r) → arg' = arg := by
     intro hn
     rcases hj with rfl | ⟨⟨t, r, ha⟩, _⟩
@@ -129,18 +132,18 @@ theorem toArg_fromArg (v : Ver) (T : OpTable) (fv : List PStr) (tp : Option Func
     simp only [pure, Except.pure, Except.ok.injEq, Prod.mk.injEq] at h
     obtain ⟨rfl, rfl⟩ := h
     rw [hnoj (by intro t r hh; cases hh)]
-    obtain ⟨idx, _, hf'⟩ := foundIndex_nat _ _ _ _ _ _ hf
+    obtain ⟨idx, hidx, hf'⟩ := foundIndex_nat _ _ _ _ _ _ hf
     obtain ⟨e', hadd, hs'⟩ := sim_step keyEquiv_str names _ _ hs.names idx _ _ _ hf'
-    refine ⟨{ est with names := e' }, idx, ?_, ⟨hs', hs.varnames, hs.consts, hs.cells, hs.cargs⟩⟩
+    refine ⟨{ est with names := e' }, idx, ?_, ⟨hs', hs.varnames, hs.consts, hs.cells, hs.cargs⟩, fun _ _ _ => hidx.symm⟩
     simp [fromArg, hadd, bind, Except.bind, pure, Except.pure]
   · -- loc
     obtain ⟨⟨t, a, o⟩, hf, h⟩ := bind_ok h
     simp only [pure, Except.pure, Except.ok.injEq, Prod.mk.injEq] at h
     obtain ⟨rfl, rfl⟩ := h
     rw [hnoj (by intro t r hh; cases hh)]
-    obtain ⟨idx, _, hf'⟩ := foundIndex_nat _ _ _ _ _ _ hf
+    obtain ⟨idx, hidx, hf'⟩ := foundIndex_nat _ _ _ _ _ _ hf
     obtain ⟨e', hadd, hs'⟩ := sim_step keyEquiv_str varnames _ _ hs.varnames idx _ _ _ hf'
-    refine ⟨{ est with varnames := e' }, idx, ?_, ⟨hs.names, hs', hs.consts, hs.cells, hs.cargs⟩⟩
+    refine ⟨{ est with varnames := e' }, idx, ?_, ⟨hs.names, hs', hs.consts, hs.cells, hs.cargs⟩, fun _ _ _ => hidx.symm⟩
     simp [fromArg, hadd, bind, Except.bind, pure, Except.pure]
   · -- free
     split at h
@@ -148,35 +151,50 @@ theorem toArg_fromArg (v : Ver) (T : OpTable) (fv : List PStr) (tp : Option Func
       simp only [pure, Except.pure, Except.ok.injEq, Prod.mk.injEq] at h
       obtain ⟨rfl, rfl⟩ := h
       rw [hnoj (by intro t r hh; cases hh)]
-      obtain ⟨idx, _, hf'⟩ := foundIndex_nat _ _ _ _ _ _ hf
+      obtain ⟨idx, hidx, hf'⟩ := foundIndex_nat _ _ _ _ _ _ hf
       obtain ⟨hget, hargs, _⟩ := foundIndex_ok _ idx _ _ _ hf'
       rw [hs.cargs] at hget
-      obtain ⟨e', j, hadd, hc'⟩ := complete_add keyEquiv_str cellvars est.cellvars hs.cells idx a o hget (ov_cases _ idx _ _ _ hf')
-      refine ⟨{ est with cellvars := e' }, j, ?_, ⟨hs.names, hs.varnames, hs.consts, hc', ?_⟩⟩
+      obtain ⟨e', j, hadd, hc', b, hb, hab⟩ := complete_add keyEquiv_str cellvars est.cellvars hs.cells idx a o hget (ov_cases _ idx _ _ _ hf')
+      refine ⟨{ est with cellvars := e' }, j, ?_, ⟨hs.names, hs.varnames, hs.consts, hc', ?_⟩, ?_⟩
       · simp [fromArg, hadd, bind, Except.bind, pure, Except.pure]
       · dsimp only; rw [hargs]; exact hs.cargs
+      · intro _ hcn _
+        have hab' : a = b := by simpa [strEq] using hab
+        subst hab'
+        have hlt : idx < cellvars.length := (List.getElem?_eq_some_iff.mp hget).1
+        have := (List.getElem?_inj hlt hcn).mp (hget.trans hb.symm)
+        rw [hidx, this]
     · split at h
       · next s hsome =>
         simp only [pure, Except.pure, Except.ok.injEq, Prod.mk.injEq] at h
         obtain ⟨rfl, rfl⟩ := h
         rw [hnoj (by intro t r hh; cases hh)]
+        next hge =>
         obtain ⟨k, hk⟩ := indexOfStr_of_get s fv _ hsome
-        exact ⟨est, ((est.cellvars.len + k : Nat) : Int), by simp [fromArg, hk, pure, Except.pure], hs⟩
+        refine ⟨est, ((est.cellvars.len + k : Nat) : Int), by simp [fromArg, hk, pure, Except.pure], hs, ?_⟩
+        intro _ _ hfn
+        have hk' := indexOfStr_get s fv k hk
+        have hlt : k < fv.length := (List.getElem?_eq_some_iff.mp hk').1
+        have hkeq := (List.getElem?_inj hlt hfn).mp (hk'.trans hsome.symm)
+        have hlen : est.cellvars.len = st.cellvars.args.length := by
+          rw [hs.cargs]; exact hs.cells.len
+        rw [hlen, hkeq]
+        omega
       · simp [throw, throwThe, MonadExceptOf.throw] at h
   · -- const
     obtain ⟨⟨t, a, o⟩, hf, h⟩ := bind_ok h
     simp only [pure, Except.pure, Except.ok.injEq, Prod.mk.injEq] at h
     obtain ⟨rfl, rfl⟩ := h
     rw [hnoj (by intro t r hh; cases hh)]
-    obtain ⟨idx, _, hf'⟩ := foundIndex_nat _ _ _ _ _ _ hf
+    obtain ⟨idx, hidx, hf'⟩ := foundIndex_nat _ _ _ _ _ _ hf
     obtain ⟨e', hadd, hs'⟩ := sim_step keyEquiv_const K _ _ hs.consts idx _ _ _ hf'
-    refine ⟨{ est with consts := e' }, idx, ?_, ⟨hs.names, hs.varnames, hs', hs.cells, hs.cargs⟩⟩
+    refine ⟨{ est with consts := e' }, idx, ?_, ⟨hs.names, hs.varnames, hs', hs.cells, hs.cargs⟩, fun _ _ _ => hidx.symm⟩
     simp [fromArg, fromConstArg_eq_add tp K hdoc _ _ hs.consts idx _ _ _ hf', hadd, bind, Except.bind, pure, Except.pure]
   all_goals
     simp only [pure, Except.pure, Except.ok.injEq, Prod.mk.injEq] at h
     obtain ⟨rfl, rfl⟩ := h
     rw [hnoj (by intro t r hh; cases hh)]
-    exact ⟨est, _, rfl, hs⟩
+    exact ⟨est, _, rfl, hs, fun _ _ _ => rfl⟩
 
 theorem collectCells_cons_other (t : FromArgs PStr) (a : Arg) (rest : List Arg) (h : ∀ s o, a ≠ .cell s o) :
     collectCells t (a :: rest) = collectCells t rest := by
@@ -259,19 +277,23 @@ theorem retarget_sameOrJump (tg : List Nat) (ins : Instr) : SameOrJump ins.arg (
   | jump t r => exact Or.inr ⟨⟨t, r, rfl⟩, ⟨_, r, rfl⟩⟩
   | _ => exact Or.inl rfl
 
-/-- **all instructions, second pass** (`resolveArgs`): the tables stay in step -/
+/-- **all instructions, second pass** (`resolveArgs`): the tables stay in step, and every operand that is not a jump is
+    resolved to the operand the instruction had in the bytecode -/
 theorem decodeInstrs_resolve (v : Ver) (T : OpTable) (fv : List PStr) (tp : Option Function) (names varnames cellvars : List PStr) (K : List Const)
     (hdoc : ∀ f, tp = some f → f.doc = firstStr K) (tg : List Nat) :
     ∀ (raws : List RawI) (st st' : DecSt) (est : EncSt) (ois : List (Nat × Instr)),
     SimSt names varnames cellvars K st est → decodeInstrs v T fv st raws = .ok (st', ois) →
-    ∃ est' xs, resolveArgs tp fv est (ois.map (fun p => retarget tg p.2)) = .ok (est', xs) ∧ SimSt names varnames cellvars K st' est' := by
+    ∃ est' xs, resolveArgs tp fv est (ois.map (fun p => retarget tg p.2)) = .ok (est', xs) ∧ SimSt names varnames cellvars K st' est' ∧
+      xs.length = raws.length ∧
+      ∀ (j : Nat) (r : RawI) (p : Nat × Instr) (x : Int), raws[j]? = some r → ois[j]? = some p → xs[j]? = some x →
+        isJump p.2.arg = false → cellvars.Nodup → fv.Nodup → x = r.arg := by
   intro raws
   induction raws with
   | nil =>
     intro st st' est ois hs h
     simp only [decodeInstrs, pure, Except.pure, Except.ok.injEq, Prod.mk.injEq] at h
     obtain ⟨rfl, rfl⟩ := h
-    exact ⟨est, [], rfl, hs⟩
+    exact ⟨est, [], rfl, hs, rfl, fun j r p x hr => by simp at hr⟩
   | cons r0 raws ih =>
     intro st st' est ois hs h
     rw [decodeInstrs] at h
@@ -280,16 +302,29 @@ theorem decodeInstrs_resolve (v : Ver) (T : OpTable) (fv : List PStr) (tp : Opti
     obtain ⟨⟨st2, r⟩, h3, h⟩ := bind_ok h
     simp only [pure, Except.pure, Except.ok.injEq, Prod.mk.injEq] at h
     obtain ⟨rfl, rfl⟩ := h
-    obtain ⟨est1, x, hx, hs1⟩ := toArg_fromArg v T fv tp names varnames cellvars K hdoc st st1 est r0 arg _ hs h1
+    obtain ⟨est1, x, hx, hs1, hval⟩ := toArg_fromArg v T fv tp names varnames cellvars K hdoc st st1 est r0 arg _ hs h1
       (retarget_sameOrJump tg (Instr.mk r0.op arg _ line offs))
     have hs1' : SimSt names varnames cellvars K { st1 with lm := lm } est1 := ⟨hs1.names, hs1.varnames, hs1.consts, hs1.cells, hs1.cargs⟩
-    obtain ⟨est2, xs, hxs, hs2⟩ := ih _ _ est1 _ hs1' h3
-    refine ⟨est2, x :: xs, ?_, hs2⟩
-    simp only [List.map_cons, resolveArgs]
-    rw [hx]
-    simp only [bind, Except.bind]
-    rw [hxs]
-    rfl
+    obtain ⟨est2, xs, hxs, hs2, hlen, hvals⟩ := ih _ _ est1 _ hs1' h3
+    refine ⟨est2, x :: xs, ?_, hs2, by simp [hlen], ?_⟩
+    · simp only [List.map_cons, resolveArgs]
+      rw [hx]
+      simp only [bind, Except.bind]
+      rw [hxs]
+      rfl
+    · intro j rj p y hr hp hy hnj hcn hfn
+      cases j with
+      | zero =>
+        simp only [List.getElem?_cons_zero, Option.some.injEq] at hr hp hy
+        subst hr; subst hp; subst hy
+        apply hval _ hcn hfn
+        intro t rr hh
+        simp only [Instr.arg] at hnj
+        rw [hh] at hnj
+        simp [isJump] at hnj
+      | succ j =>
+        simp only [List.getElem?_cons_succ] at hr hp hy
+        exact hvals j rj p y hr hp hy hnj hcn hfn
 
 /-- **all instructions, first pass** (`collectCells`) -/
 theorem decodeInstrs_collect (v : Ver) (T : OpTable) (fv : List PStr) (cellvars : List PStr) (tg : List Nat) :
